@@ -69,6 +69,10 @@ ServerClose == /\ ~closedSrv /\ closedSrv' = TRUE
 Pipeline(c, how) == /\ c = "P" /\ SelfSub /\ st[c] = "up" /\ ~reading[c] /\ pending[c] = "none" /\ ~closedSrv
                     /\ pending' = [pending EXCEPT ![c] = how]
                     /\ UNCHANGED <<st, reading, closedSrv>> /\ Log("pipeline-" \o how, c, FALSE)
+\* the same with a SUBSCRIBE: it does not end the connection, but however the connection ends afterwards, the
+\* subscription must be gone with it (also when its SUBACK could never be written)
+PipelineSub(c) == /\ c \in {"P", "S"} /\ st[c] = "up" /\ ~reading[c] /\ pending[c] = "none" /\ ~closedSrv
+                  /\ UNCHANGED <<st, reading, pending, closedSrv>> /\ Log("pipeline-subscribe", c, FALSE)
 Resume(c) == /\ c \in {"P", "S"} /\ st[c] = "up" /\ ~reading[c] /\ ~closedSrv
              \* the pipelined ending packet is only reached for sure if nobody else holds up c's deliveries
              /\ (pending[c] # "none" => \A d \in Clients \ {c} : st[d] = "up" => reading[d])
@@ -86,6 +90,7 @@ Next == steps < MaxSteps /\
         \/ \E c \in {"P", "S"} : Burst(c) \/ StopReading(c)
         \/ \E c \in {"P", "S"}, how \in {"cut", "disconnect", "bad", "over"} : End(c, how)
         \/ \E how \in {"bad", "disconnect"} : Pipeline("P", how)
+        \/ \E c \in {"P", "S"} : PipelineSub(c)
         \/ \E c \in {"P", "S"} : Resume(c)
         \/ \E k \in AttackKinds : Attack(k)
         \/ ServerClose
